@@ -1184,6 +1184,8 @@ static int vp_target(pid_t pid)
   VP_ASSERT(C06, !reaped, "signal/reap of a child that has already been reaped");
   VP_ASSERT(C01, !reaped, "second reap (or signal) of a child that has already been reaped");
   VP_ASSERT(C14, pid > 0 && found >= 0, "kill/waitpid on something that is not the library's child");
+  VP_ASSERT(C20, pid > 0 && found >= 0,
+            "signal/reap not aimed at this handle's own child: with several threads it hits another handle's child");
   return reaped ? -1 : found;
 }
 
